@@ -60,7 +60,8 @@ def main():
   dst = os.path.join(VERIF, "seeded", sid)
   os.makedirs(dst, exist_ok=True)
   for f in os.listdir(src):
-    if os.path.isfile(os.path.join(src, f)):
+    if os.path.isfile(os.path.join(src, f)) and \
+        os.path.abspath(src) != os.path.abspath(dst) and f != "meta.json":
       shutil.copy(os.path.join(src, f), os.path.join(dst, f))
   patch = os.path.join(dst, "patch.diff")
   demo = [f for f in os.listdir(dst) if f.startswith("demo.")]
